@@ -110,7 +110,7 @@ TSnap ==
 TExit ==
   /\ l <= N /\ ~dev /\ E.e = "exit"
   /\ pc \in {"done", "failed"} /\ out = None
-  /\ E.ok = (pc = "done")
+  /\ E.ok = (IF pc = "done" THEN "true" ELSE "false")
   /\ Exit
   /\ Receiving => /\ E.exists = fexists'
                   /\ (fexists' /\ ~p.devfull) => E.file = file
@@ -131,7 +131,7 @@ Matched == TIn \/ TOut \/ TSnap \/ TExit \/ TEnd
 (* unexplained event violate?  (DESIGN.md section 8)                        *)
 
 \* the current or the next window touches or lies beyond a multiple of M
-NearWrap == base + len + p.W >= p.M
+NearWrap == base + len + 2 >= p.M
 
 \* The last input was an ACK for a block that was never sent (beyond what is outstanding,
 \* and not the number of any block acknowledged earlier).  No conformant peer sends it and
@@ -142,7 +142,7 @@ FutureAck ==
   /\ ~(base >= p.M - 1 \/ lin.n <= base)
 
 SenderLabel ==
-  CASE E.e = "exit" /\ FutureAck /\ E.ok # TRUE -> "X:FutureAckAbort"
+  CASE E.e = "exit" /\ FutureAck /\ E.ok # "true" -> "X:FutureAckAbort"
     [] E.e = "out" ->
          IF pc \in {"done", "exited"} \/ (pc = "failed" /\ out = None) THEN "C07:EmitAfterEnd"
          ELSE IF out = None
@@ -172,7 +172,7 @@ SenderLabel ==
     [] E.e = "exit" ->
          IF out # None THEN (IF why = "time" THEN "C04:MissingRetransmission" ELSE "C08,C01:MissingTransmission")
          ELSE IF pc \in {"check", "run"}
-              THEN IF E.ok = TRUE THEN "C07,C01:EarlyExitOk" ELSE "C04,C08:GaveUpEarly"
+              THEN IF E.ok = "true" THEN "C07,C01:EarlyExitOk" ELSE "C04,C08:GaveUpEarly"
               ELSE "C07:WrongOutcome"
     [] OTHER -> "C07:Hang"
 
@@ -198,8 +198,8 @@ ReceiverLabel ==
     [] E.e = "exit" ->
          IF out # None THEN (IF why = "ooseq" THEN "C04:MissingReAck" ELSE "C08,C02:MissingAck")
          ELSE IF pc \in {"check", "run"}
-              THEN IF E.ok = TRUE THEN "C07,C02:EarlyExitOk" ELSE "C04:GaveUpEarly"
-              ELSE IF E.ok # (pc = "done") THEN "C07:WrongOutcome"
+              THEN IF E.ok = "true" THEN "C07,C02:EarlyExitOk" ELSE "C04:GaveUpEarly"
+              ELSE IF E.ok # (IF pc = "done" THEN "true" ELSE "false") THEN "C07:WrongOutcome"
               ELSE IF E.exists # (IF pc = "failed" /\ p.clean THEN FALSE ELSE fexists) THEN "C13:Cleanup"
               ELSE IF pc = "done" THEN "C02:FileAtEnd" ELSE "C13:KeptNotPrefix"
     [] OTHER -> "C07:Hang"
